@@ -2,6 +2,7 @@
 From Coq Require Import List String Ascii Bool Arith ZArith.
 From Annet Require Import Base.Str Base.Tree Model.Pattern Model.Rulebook Model.Diff Model.Order
      Model.Patch Model.Blocks Model.Pipeline Spec.PipelineCase Gen.Src_api.
+From Annet Require Export Spec.P_C16o.
 Import ListNotations.
 Open Scope string_scope.
 Open Scope list_scope.
@@ -21,31 +22,6 @@ Definition front_end (de pe : dexpr) (v : vendor) (rs : rset) (ordering : list o
 
 Definition device_mode := front_end device_diff device_patch_from.
 Definition file_mode := front_end file_diff file_patch_from.
-
-Definition presult_eqb (a b : presult) : bool :=
-  match a, b with
-  | POk x, POk y => ptree_eqb x y
-  | PErr, PErr => true
-  | _, _ => false
-  end.
-
-(* observed outputs of the two real front ends on the same (hw, old, new) *)
-Record obs16 := Obs16 {
-  o_dev_diff : list dnode; o_dev_patch : option ptree; o_dev_paths : list (list string);
-  o_file_diff : list dnode; o_file_patch : option ptree; o_file_paths : list (list string)
-}.
-
-Definition opt_ptree_eqb (a b : option ptree) : bool :=
-  match a, b with
-  | Some x, Some y => ptree_eqb x y
-  | None, None => true
-  | _, _ => false
-  end.
-
-Definition P_C16 (o : obs16) : bool :=
-  opt_ptree_eqb (o_dev_patch o) (o_file_patch o) &&
-  paths_eqb (o_dev_paths o) (o_file_paths o) &&
-  (match o_dev_patch o with None => true | Some _ => diff_eqb (o_dev_diff o) (o_file_diff o) end).
 
 (* does the model's patch depend on stripping before make_pre? *)
 Definition strip_invariant (v : vendor) (rs : rset) (ordering : list orule) (old new : forest) : bool :=
